@@ -272,6 +272,17 @@ ALIAS_CASES = [
     ('n := %{"len": nil, \'keys: nil, "x": 1}\n', '[n["len"], n[\'keys], n["nope"], n.len, n["x"], %{}["len"].proto[\'_name]]', '[nil, nil, nil, 3, 1, "Func"]'),
     ("a := {x: 1, _h: 2}\nc := {_h: 5, **a, **a}\n", "[a, c, c.keys, c.values(private?: true)]",
      '[{"_h": 2, "x": 1}, {"_h": 5, "x": 1}, ["x"], [1, 5]]'),
+    # scalar keys that print alike (floats differing beyond the 6th decimal) are different keys: every pair is listed and printed
+    ('m := %{1.0: "one", 1.0000001: "more", 2: "two"}\ns := %{0.0000001: \'a, 0.0000002: \'b, 0.0000003: \'c}\nu := %{0.5: \'half, **%{0.50000001: \'more}}\n',
+     "[m.len, m.values, m[1.0], m[1.0000001], m.S, s.values, s.S, u.items.len, u.values, u.S]",
+     '[3, ["one", "more", "two"], "one", "more", `%{1.000000: "more", 1.000000: "one", 2: "two"}`, ["a", "b", "c"], '
+     '`%{0.000000: "a", 0.000000: "b", 0.000000: "c"}`, 2, ["half", "more"], `%{0.500000: "half", 0.500000: "more"}`]'),
+    # keys with a user-defined `==` that raises for other kinds of values: an error inside the duplicate test means "not equal"
+    ("Point := {new: m{|x, y| .bear({x: x, y: y})}, '==: m{|o| .x == o.x && .y == o.y}}\np := Point.new(1, 2)\nq := Point.new(1, 2)\nr := Point.new(3, 4)\n"
+     "show := {|e| e.A.{|m, err| [m.len, m.values] if err.nil? else err.type._name}}\n",
+     "[show(1.try.{%{[1, 2]: 'arr, ^p: 'first, ^q: 'dup, ^r: 'other}}), show(1.try.{%{{a: 1}: 'obj, **%{^p: 'p, ^q: 'dup, ^r: 'r}}}), "
+     "show(1.try.{%{(1:2): 'range, 'k: 'scalar, **%{^r: 'r}}}), show(1.try.{%{^p: 1, ^q: 2, ^r: 3}})]",
+     '[[3, ["arr", "first", "other"]], [3, ["obj", "p", "r"]], [3, ["scalar", "range", "r"]], [2, [1, 3]]]'),
 ]
 
 
